@@ -362,7 +362,19 @@ class Exec:
 
     def _snapshot(self):
         out = []
+        try:
+            frames = sys._current_frames()
+        except Exception:  # noqa: BLE001
+            frames = {}
         for t in self.threads:
+            where = None
+            f = frames.get(t.real.ident) if t.real is not None else None
+            while f is not None:
+                fn = f.f_code.co_filename
+                if "aws_durable_execution_sdk_python" in fn:
+                    where = f"{fn.rsplit('/', 1)[-1]}:{f.f_code.co_name}"
+                    break
+                f = f.f_back
             on = None
             if t.on is not None:
                 o = t.on
@@ -371,7 +383,7 @@ class Exec:
                     on = (a, o[1])
                 else:
                     on = repr(o)
-            out.append({"id": t.id, "name": t.name, "state": _STATE[t.state], "on": on,
+            out.append({"id": t.id, "name": t.name, "state": _STATE[t.state], "on": on, "where": where,
                         "deadline": None if t.deadline is None else round(t.deadline - self.start, 3)})
         return out
 
